@@ -437,8 +437,8 @@ class Quaternion(SMUserList):
         :seealso: :func:`~spatialmath.base.quaternions.inner`
         """
 
-        assert isinstance(other, Quaternion), \
-            'operands to inner must be Quaternion subclass'
+        if not (isinstance(other, Quaternion)):
+            raise TypeError('operands to inner must be Quaternion subclass')
         return self.binop(other, base.inner, list1=False)
 
     #-------------------------------------------- operators
@@ -466,8 +466,8 @@ class Quaternion(SMUserList):
 
         :seealso: :func:`__ne__`, :func:`~spatialmath.base.quaternions.isequal`
         """
-        assert isinstance(left, type(right)), \
-            'operands to == are of different types'
+        if not (isinstance(left, type(right))):
+            raise TypeError('operands to == are of different types')
         return left.binop(right, base.isequal, list1=False)
 
     def __ne__(left, right):  # lgtm[py/not-named-self] pylint: disable=no-self-argument
@@ -497,7 +497,8 @@ class Quaternion(SMUserList):
 
         :seealso: :func:`__ne__`, :func:`~spatialmath.base.quaternions.isequal`
         """
-        assert isinstance(left, type(right)), 'operands to == are of different types'
+        if not (isinstance(left, type(right))):
+            raise TypeError('operands to == are of different types')
         return left.binop(right, lambda x, y: not base.isequal(x, y), list1=False)
 
     def __mul__(left, right):  # lgtm[py/not-named-self] pylint: disable=no-self-argument
@@ -735,7 +736,8 @@ class Quaternion(SMUserList):
             10.000000 < 12.000000, 14.000000, 16.000000 >
         """
         # results is not in the group, return an array, not a class
-        assert isinstance(right, Quaternion), 'operands to + are of different types'
+        if not (isinstance(right, Quaternion)):
+            raise TypeError('operands to + are of different types')
         return Quaternion(left.binop(right, lambda x, y: x + y))
 
     def __sub__(left, right):  # lgtm[py/not-named-self] pylint: disable=no-self-argument
@@ -796,7 +798,8 @@ class Quaternion(SMUserList):
         """
         # results is not in the group, return an array, not a class
         # TODO allow class +/- a conformant array
-        assert isinstance(right, Quaternion), 'operands to - are of different types'
+        if not (isinstance(right, Quaternion)):
+            raise TypeError('operands to - are of different types')
         return Quaternion(left.binop(right, lambda x, y: x - y))
 
     def __neg__(self):
@@ -1396,7 +1399,8 @@ class UnitQuaternion(Quaternion):
 
         :seealso: :func:`~spatialmath.pose3d.SE3.angvec`, :func:`~spatialmath.base.transforms3d.angvec2r`
         """
-        assert base.isvector(w, 3), 'w must be a 3-vector'
+        if not (base.isvector(w, 3)):
+            raise ValueError('w must be a 3-vector')
         w = base.getvector(w)
         theta = base.norm(w)
         if base.iszerovec(w):
@@ -1796,7 +1800,8 @@ class UnitQuaternion(Quaternion):
 
         if dest is not None:
             # 2 quaternion form
-            assert isinstance(dest, UnitQuaternion)
+            if not (isinstance(dest, UnitQuaternion)):
+                raise TypeError('bad argument')
             if s == 0:
                 return self
             elif s == 1:
@@ -1813,7 +1818,8 @@ class UnitQuaternion(Quaternion):
             q1 = base.eye()
             q2 = self.vec
 
-        assert 0 <= s <= 1, 's must be in interval [0,1]'
+        if not (0 <= s <= 1):
+            raise ValueError('s must be in interval [0,1]')
 
         dot = base.inner(q1, q2)
 
